@@ -190,7 +190,7 @@ theorem wfp_closeSt {s : PSt} (hw : WFp s) (c : Chan) {j j' : OJob} (hj : j ∈ 
     intro c' _ hmem
     obtain ⟨e, he, hei⟩ := List.mem_map.mp hmem
     obtain ⟨m2, hm2, hr2⟩ := hw.wf.hasFile c' e he
-    rw [hei, hm] at hm2; cases hm2; exact hr2
+    rw [hei, hmid, hm] at hm2; cases hm2; exact hr2
   rcases closeH_cases s.h c j' m with ⟨hdef, hH⟩ | ⟨hdef, d', hd', hH⟩
   · -- recipients left: back into the channel heap at `retry`
     rw [hH]
@@ -267,7 +267,7 @@ theorem wfp_closeSt {s : PSt} (hw : WFp s) (c : Chan) {j j' : OJob} (hj : j ∈ 
       rw [find_update _ _ m hfm i, mkSt_find, setRecs_id]
       by_cases hi : i = m.id
       · rw [if_pos hi]
-        rw [hi, hm] at hmi; cases hmi
+        rw [hi, hmid, hm] at hmi; cases hmi
         refine ⟨_, rfl, by rw [setRecs_birth], fun c2 => ?_⟩
         by_cases hc2 : c2 = c
         · left; exact ⟨by rw [hi]; exact hmid, hc2⟩
@@ -290,5 +290,888 @@ theorem wfp_settle {s : PSt} (hw : WFp s) (c : Chan) {j j' : OJob} (hj : j ∈ s
       intro he
       apply hdone
       simp [hs, he]
+
+/-! ### the steps -/
+
+theorem ids_sub_of_perm {q q' : PQ} {pe : Elt} (hperm : q.toList.Perm (pe :: q'.toList)) {i : Nat} (hi : i ∈ ids q') :
+    i ∈ ids q := by
+  obtain ⟨e, he, hei⟩ := List.mem_map.mp hi
+  exact List.mem_map.mpr ⟨e, hperm.mem_iff.mpr (List.mem_cons_of_mem _ he), hei⟩
+
+theorem openSt_cases (s : PSt) (c : Chan) :
+    openSt s c = s ∨
+    (s.up = true ∧ s.exitasap = false ∧ ∃ pe q' m, passStart s.h.clock true (s.h.q c) = some (pe, q') ∧
+      s.h.find pe.id = some m ∧
+      openSt s c = (s.setJobs c ({ id := pe.id, job := jobOpen s.h.clock s.h.lifetime m.birth c, opened := s.h.clock } :: s.jobs c)).setH
+        (s.h.setQ c q')) := by
+  unfold openSt
+  by_cases hg : (!s.up || s.exitasap || (s.jobs c).any (·.scanning)) = true
+  · left; rw [if_pos hg]
+  · rw [if_neg hg]
+    have hup : s.up = true := by
+      cases h : s.up with
+      | true => rfl
+      | false => exfalso; apply hg; simp [h]
+    have hex : s.exitasap = false := by
+      cases h : s.exitasap with
+      | false => rfl
+      | true => exfalso; apply hg; simp [h]
+    cases hp : passStart s.h.clock true (s.h.q c) with
+    | none => left; rfl
+    | some rr =>
+      obtain ⟨pe, q'⟩ := rr
+      cases hm : s.h.find pe.id with
+      | none => left; simp only [hm]
+      | some m => right; exact ⟨hup, hex, pe, q', m, rfl, hm, by simp only [hm]⟩
+
+theorem wfp_openSt {s : PSt} (hw : WFp s) (c : Chan) : WFp (openSt s c) := by
+  rcases openSt_cases s c with h | ⟨_, _, pe, q', m0, hp, hm0, h⟩
+  · rw [h]; exact hw
+  · rw [h]
+    obtain ⟨hdue, hmin, hperm, hh', hmem, hnot, hnd, m, recs, hm, hr⟩ := start_facts hw.wf hp
+    rw [hm0] at hm; cases hm
+    have hpid : pe.id ∈ ids (s.h.q c) := List.mem_map_of_mem hmem
+    have hwf1 : WF (s.h.setQ c q') := by
+      rw [setQ_eq_mkSt]
+      refine wf_mkSt hw.wf c q' s.h.done hh' hw.wf.heapDone hnd ?_
+      intro e he
+      exact hw.wf.hasFile c e (hperm.mem_iff.mpr (List.mem_cons_of_mem _ he))
+    refine ⟨by rw [setH_h]; exact hwf1, ?_, ?_, ?_, ?_⟩
+    · intro c' x hx
+      rw [setH_h]; rw [setH_jobs] at hx
+      by_cases hc : c' = c
+      · subst hc; rw [setJobs_same] at hx; rw [setQ_q_same]
+        rcases List.mem_cons.mp hx with hx | hx
+        · subst hx; exact hnot
+        · exact fun hi => hw.jobNotQ _ x hx (ids_sub_of_perm hperm hi)
+      · rw [setJobs_other _ _ _ _ hc] at hx; rw [setQ_q_other _ _ _ _ hc]; exact hw.jobNotQ c' x hx
+    · intro c'
+      rw [setH_jobs]
+      by_cases hc : c' = c
+      · subst hc; rw [setJobs_same]
+        simp only [List.map_cons]
+        refine List.nodup_cons.mpr ⟨?_, hw.jobNodup _⟩
+        intro hi
+        obtain ⟨x, hx, hxi⟩ := List.mem_map.mp hi
+        exact hw.jobNotQ _ x hx (by rw [hxi]; exact hpid)
+      · rw [setJobs_other _ _ _ _ hc]; exact hw.jobNodup c'
+    · intro c' x hx
+      rw [setH_h, setQ_find]; rw [setH_jobs] at hx
+      by_cases hc : c' = c
+      · subst hc; rw [setJobs_same] at hx
+        rcases List.mem_cons.mp hx with hx | hx
+        · subst hx; exact ⟨m0, hm0, by rw [hr]; rfl, rfl⟩
+        · exact hw.jobFile _ x hx
+      · rw [setJobs_other _ _ _ _ hc] at hx; exact hw.jobFile c' x hx
+    · intro c' x hx
+      rw [setH_jobs] at hx
+      by_cases hc : c' = c
+      · subst hc; rw [setJobs_same] at hx
+        rcases List.mem_cons.mp hx with hx | hx
+        · subst hx; exact Or.inl rfl
+        · exact hw.jobLive _ x hx
+      · rw [setJobs_other _ _ _ _ hc] at hx; exact hw.jobLive c' x hx
+
+theorem advance_id (j : OJob) (recs : List Bool) : (advance j recs).id = j.id := by
+  unfold advance; split; rfl; split <;> rfl
+theorem advance_job (j : OJob) (recs : List Bool) : (advance j recs).job = j.job := by
+  unfold advance; split; rfl; split <;> rfl
+theorem advance_opened (j : OJob) (recs : List Bool) : (advance j recs).opened = j.opened := by
+  unfold advance; split; rfl; split <;> rfl
+theorem advance_deferred (j : OJob) (recs : List Bool) : (advance j recs).deferred = j.deferred := by
+  unfold advance; split; rfl; split <;> rfl
+
+theorem nextSt_cases (s : PSt) (c : Chan) :
+    nextSt s c = s ∨ (s.up = true ∧ ∃ j recs, j ∈ s.jobs c ∧ nextSt s c = settle s c (advance j recs)) := by
+  unfold nextSt
+  by_cases hg : (!s.up || s.exitasap) = true
+  · left; rw [if_pos hg]
+  · rw [if_neg hg]
+    have hup : s.up = true := by
+      cases h : s.up with
+      | true => rfl
+      | false => exfalso; apply hg; simp [h]
+    cases hj : (s.jobs c).find? (·.scanning) with
+    | none => left; rfl
+    | some j =>
+      cases hr : (s.h.find j.id).bind (·.recs c) with
+      | none => left; simp only [hr]
+      | some recs => right; exact ⟨hup, j, recs, (find_job_mem hj).1, by simp only [hr]⟩
+
+theorem wfp_nextSt {s : PSt} (hw : WFp s) (c : Chan) : WFp (nextSt s c) := by
+  rcases nextSt_cases s c with h | ⟨_, j, recs, hj, h⟩
+  · rw [h]; exact hw
+  · rw [h]; exact wfp_settle hw c hj (advance_id j recs) (advance_job j recs) (advance_opened j recs)
+
+/-- a record of message `m` on channel `c` is marked done on disk -/
+theorem wfp_mark {s : PSt} (hw : WFp s) (c : Chan) {m : Msg} (hm : s.h.find m.id = some m) (f : List Bool → List Bool) :
+    WFp (s.setH (s.h.update (m.setRecs c ((m.recs c).map f)))) := by
+  have hsome : ∀ c', ((m.setRecs c ((m.recs c).map f)).recs c').isSome = (m.recs c').isSome := by
+    intro c'
+    by_cases hc : c' = c
+    · subst hc; rw [setRecs_same]; cases m.recs c' <;> rfl
+    · rw [setRecs_other _ _ _ _ hc]
+  have hfm : s.h.find (m.setRecs c ((m.recs c).map f)).id = some m := by rw [setRecs_id]; exact hm
+  refine ⟨?_, ?_, ?_, ?_, ?_⟩
+  · rw [setH_h]
+    refine wf_update hw.wf m _ hfm ?_
+    intro c' hmem
+    rw [setRecs_id] at hmem
+    obtain ⟨e, he, hei⟩ := List.mem_map.mp hmem
+    obtain ⟨m2, hm2, hr2⟩ := hw.wf.hasFile c' e he
+    rw [hei, hm] at hm2; cases hm2
+    rw [hsome]; exact hr2
+  · intro c' x hx; rw [setH_h, update_q]; rw [setH_jobs] at hx; exact hw.jobNotQ c' x hx
+  · intro c'; rw [setH_jobs]; exact hw.jobNodup c'
+  · intro c' x hx
+    rw [setH_jobs] at hx; rw [setH_h]
+    obtain ⟨mx, hmx, hrx, hretx⟩ := hw.jobFile c' x hx
+    rw [find_update _ _ m hfm, setRecs_id]
+    by_cases hi : x.id = m.id
+    · rw [if_pos hi]
+      rw [hi, hm] at hmx; cases hmx
+      exact ⟨_, rfl, by rw [hsome]; exact hrx, by rw [setRecs_birth]; exact hretx⟩
+    · rw [if_neg hi]; exact ⟨mx, hmx, hrx, hretx⟩
+  · intro c' x hx; rw [setH_jobs] at hx; exact hw.jobLive c' x hx
+
+theorem reportSt_cases (s : PSt) (c : Chan) (i pos : Nat) (letter : Byte) :
+    reportSt s c i pos letter = s ∨
+    (s.up = true ∧ ∃ j m, j ∈ s.jobs c ∧ j.id = i ∧ s.h.find i = some m ∧
+      (((report j.job.dying letter (str "report\n")).staysTodo = true ∧
+        reportSt s c i pos letter = settle s c { j with inflight := j.inflight.erase pos, deferred := j.deferred + 1 }) ∨
+       ((report j.job.dying letter (str "report\n")).staysTodo = false ∧
+        reportSt s c i pos letter =
+          settle (s.setH (s.h.update (m.setRecs c ((m.recs c).map fun r => r.set pos false)))) c
+            { j with inflight := j.inflight.erase pos }))) := by
+  unfold reportSt
+  by_cases hg : (!s.up) = true
+  · left; rw [if_pos hg]
+  · rw [if_neg hg]
+    have hup : s.up = true := by
+      cases h : s.up with
+      | true => rfl
+      | false => exfalso; apply hg; simp [h]
+    cases hj : s.job? c i with
+    | none => left; rfl
+    | some j =>
+      have hjm := find_job_mem (show (s.jobs c).find? (·.id == i) = some j from hj)
+      have hji : j.id = i := by simpa using hjm.2
+      simp only
+      by_cases hc : (!j.inflight.contains pos) = true
+      · left; rw [if_pos hc]
+      · rw [if_neg hc]
+        cases hm : s.h.find i with
+        | none => left; rfl
+        | some m =>
+          right
+          refine ⟨hup, j, m, hjm.1, hji, rfl, ?_⟩
+          simp only
+          by_cases hs : (report j.job.dying letter (str "report\n")).staysTodo = true
+          · left; exact ⟨hs, by rw [if_pos hs]⟩
+          · right
+            have hs' : (report j.job.dying letter (str "report\n")).staysTodo = false := by simpa using hs
+            exact ⟨hs', by rw [if_neg hs]⟩
+
+theorem wfp_reportSt {s : PSt} (hw : WFp s) (c : Chan) (i pos : Nat) (letter : Byte) : WFp (reportSt s c i pos letter) := by
+  rcases reportSt_cases s c i pos letter with h | ⟨_, j, m, hj, hji, hm, ⟨_, h⟩ | ⟨_, h⟩⟩
+  · rw [h]; exact hw
+  · rw [h]; exact wfp_settle hw c hj rfl rfl rfl
+  · rw [h]
+    have hmid : m.id = i := (find_some hm).2
+    have hw1 := wfp_mark hw c (m := m) (by rw [hmid]; exact hm) (fun r => r.set pos false)
+    exact wfp_settle hw1 c (j := j) (by rw [setH_jobs]; exact hj) rfl rfl rfl
+
+theorem wf_finWrite1 {h : HSt} (hwf : WF h) (c : Chan) (e : Elt) : WF (finWrite1 c h e) := by
+  unfold finWrite1
+  cases hm : h.find e.id with
+  | none => exact hwf
+  | some m =>
+    simp only
+    have hmid : m.id = e.id := (find_some hm).2
+    refine wf_update hwf m _ (by rw [setMt_id, hmid]; exact hm) ?_
+    intro c' hmem
+    rw [setMt_id] at hmem
+    obtain ⟨x, hx, hxi⟩ := List.mem_map.mp hmem
+    obtain ⟨m2, hm2, hr2⟩ := hwf.hasFile c' x hx
+    rw [hxi, hmid, hm] at hm2; cases hm2
+    rw [setMt_recs]; exact hr2
+
+theorem wf_cutWrite {h : HSt} (hwf : WF h) (c : Chan) (j : OJob) : WF (cutWrite c h j) := by
+  unfold cutWrite; split
+  · exact wf_finWrite1 hwf c _
+  · exact hwf
+
+theorem wf_foldl_cutWrite (c : Chan) : ∀ (l : List OJob) {h : HSt}, WF h → WF (l.foldl (cutWrite c) h) := by
+  intro l
+  induction l with
+  | nil => intro h hwf; exact hwf
+  | cons x r ih => intro h hwf; exact ih (wf_cutWrite hwf c x)
+
+theorem pfinSt_cases (persist : Bool) (s : PSt) :
+    pfinSt persist s = s ∨
+    (s.up = true ∧ s.exitasap = true ∧ nothingInFlight s = true ∧
+      pfinSt persist s = { h := if persist then s.j1.foldl (cutWrite .rem) (s.j0.foldl (cutWrite .loc) (finSt s.h)) else finSt s.h,
+                           j0 := [], j1 := [], exitasap := true, up := false }) := by
+  unfold pfinSt
+  by_cases hg : (!s.up || !s.exitasap || !nothingInFlight s) = true
+  · left; rw [if_pos hg]
+  · right; rw [if_neg hg]
+    refine ⟨?_, ?_, ?_, rfl⟩
+    · cases h : s.up with
+      | true => rfl
+      | false => exfalso; apply hg; simp [h]
+    · cases h : s.exitasap with
+      | true => rfl
+      | false => exfalso; apply hg; simp [h]
+    · cases h : nothingInFlight s with
+      | true => rfl
+      | false => exfalso; apply hg; simp [h]
+
+theorem wfp_pfinSt {s : PSt} (hw : WFp s) (persist : Bool) : WFp (pfinSt persist s) := by
+  rcases pfinSt_cases persist s with h | ⟨_, _, _, h⟩
+  · rw [h]; exact hw
+  · rw [h]
+    apply wfp_init
+    cases persist with
+    | false => exact wf_finSt hw.wf
+    | true => exact wf_foldl_cutWrite .rem _ (wf_foldl_cutWrite .loc _ (wf_finSt hw.wf))
+
+theorem wfp_ploadSt {s : PSt} (hw : WFp s) : WFp (ploadSt s) := by
+  unfold ploadSt; split
+  · exact hw
+  · exact wfp_init _ (wf_loadSt hw.wf.nodupMsgs) _ _
+
+/-- `WFp` is an invariant of every quiet step (clock ticks, TERM, exit, restart, and the three kinds of pass work on
+either channel) -/
+theorem wfp_pstep {s : PSt} (hw : WFp s) (persist : Bool) (x : PStep) (hq : x.quiet = true) : WFp (pstep persist s x) := by
+  cases x with
+  | mk => cases hq
+  | alrm => cases hq
+  | tick d => exact wfp_tick hw _
+  | term => exact wfp_term hw
+  | fin => exact wfp_pfinSt hw persist
+  | load => exact wfp_ploadSt hw
+  | «open» c => exact wfp_openSt hw c
+  | next c => exact wfp_nextSt hw c
+  | report c i pos letter => exact wfp_reportSt hw c i pos letter
+
+/-! ### the back-off obligation -/
+
+/-- message `i` owes the back-off time `r` on channel `c`: the clock has reached `r`, or every trace of the message on
+that channel lies at or after `r` — every heap entry, every open job (which moreover has a deferred recipient, so
+that job_close will put it back at its retry time), the persisted mtime while no process runs — and, while a
+process runs and the channel file exists, there is such a trace. -/
+def OwedP (i : Nat) (c : Chan) (r : Int) (s : PSt) : Prop :=
+  r ≤ s.h.clock ∨
+  ((∀ e ∈ (s.h.q c).toList, e.id = i → r ≤ e.dt) ∧
+   (∀ j ∈ s.jobs c, j.id = i → r ≤ j.job.retry ∧ 0 < j.deferred) ∧
+   (s.up = false → ∀ m, s.h.find i = some m → (m.recs c).isSome = true → r ≤ m.mt c) ∧
+   (s.up = true → ∀ m, s.h.find i = some m → (m.recs c).isSome = true → i ∈ ids (s.h.q c) ∨ ∃ j ∈ s.jobs c, j.id = i))
+
+theorem tick_q (s : PSt) (t : Int) (c : Chan) : (s.setH { s.h with clock := t }).h.q c = s.h.q c := by cases c <;> rfl
+
+theorem owed_tick {i : Nat} {c : Chan} {r : Int} {s : PSt} (ho : OwedP i c r s) (d : Nat) :
+    OwedP i c r (s.setH { s.h with clock := s.h.clock + d }) := by
+  rcases ho with h | ⟨h1, h2, h3, h4⟩
+  · left; show r ≤ s.h.clock + d; omega
+  · right
+    refine ⟨by rw [tick_q]; exact h1, by rw [setH_jobs]; exact h2, h3, ?_⟩
+    intro hup m hm hr
+    rw [tick_q, setH_jobs]; exact h4 hup m hm hr
+
+theorem owed_term {i : Nat} {c : Chan} {r : Int} {s : PSt} (ho : OwedP i c r s) : OwedP i c r { s with exitasap := true } := by
+  rcases ho with h | ⟨h1, h2, h3, h4⟩
+  · exact Or.inl h
+  · right
+    refine ⟨h1, ?_, h3, ?_⟩
+    · intro j hj; exact h2 j (by cases c <;> exact hj)
+    · intro hup m hm hr
+      rcases h4 hup m hm hr with h | ⟨j, hj, hji⟩
+      · exact Or.inl h
+      · exact Or.inr ⟨j, by cases c <;> exact hj, hji⟩
+
+theorem owed_openSt {i : Nat} {c : Chan} {r : Int} {s : PSt} (hw : WFp s) (ho : OwedP i c r s) (c' : Chan) :
+    OwedP i c r (openSt s c') := by
+  rcases openSt_cases s c' with h | ⟨hup, _, pe, q', m0, hp, hm0, h⟩
+  · rw [h]; exact ho
+  · rw [h]
+    rcases ho with hcl | ⟨h1, h2, h3, h4⟩
+    · left; rw [setH_h, setQ_clock]; exact hcl
+    · obtain ⟨hdue, _, hperm, _, hmem, _, _, _⟩ := start_facts hw.wf hp
+      by_cases hc : c = c'
+      · subst hc
+        by_cases hpi : pe.id = i
+        · left; rw [setH_h, setQ_clock]
+          have := h1 pe hmem hpi; omega
+        · right
+          refine ⟨?_, ?_, ?_, ?_⟩
+          · intro e he hei
+            rw [setH_h, setQ_q_same] at he
+            exact h1 e (hperm.mem_iff.mpr (List.mem_cons_of_mem _ he)) hei
+          · intro j hj hji
+            rw [setH_jobs, setJobs_same] at hj
+            rcases List.mem_cons.mp hj with hj | hj
+            · subst hj; exact absurd hji hpi
+            · exact h2 j hj hji
+          · intro hdown; rw [setH_up, setJobs_up, hup] at hdown; cases hdown
+          · intro _ m hm hr
+            rw [setH_h, setQ_find] at hm
+            rw [setH_h, setQ_q_same, setH_jobs, setJobs_same]
+            rcases h4 hup m hm hr with hq | ⟨j, hj, hji⟩
+            · left
+              obtain ⟨e, he, hei⟩ := List.mem_map.mp hq
+              rcases List.mem_cons.mp (hperm.mem_iff.mp he) with hep | hep
+              · subst hep; exact absurd hei hpi
+              · exact List.mem_map.mpr ⟨e, hep, hei⟩
+            · exact Or.inr ⟨j, List.mem_cons_of_mem _ hj, hji⟩
+      · right
+        have hc' : c ≠ c' := hc
+        refine ⟨?_, ?_, ?_, ?_⟩
+        · rw [setH_h, setQ_q_other _ _ _ _ hc']; exact h1
+        · rw [setH_jobs, setJobs_other _ _ _ _ hc']; exact h2
+        · intro hdown; rw [setH_up, setJobs_up, hup] at hdown; cases hdown
+        · intro _ m hm hr
+          rw [setH_h, setQ_find] at hm
+          rw [setH_h, setQ_q_other _ _ _ _ hc', setH_jobs, setJobs_other _ _ _ _ hc']
+          exact h4 hup m hm hr
+
+theorem updJob_has {l : List OJob} {j' : OJob} {i : Nat} (h : ∃ x ∈ l, x.id = i) : ∃ y ∈ updJob l j', y.id = i := by
+  obtain ⟨x, hx, hxi⟩ := h
+  have : i ∈ (updJob l j').map (·.id) := by rw [updJob_ids]; exact List.mem_map.mpr ⟨x, hx, hxi⟩
+  obtain ⟨y, hy, hyi⟩ := List.mem_map.mp this
+  exact ⟨y, hy, hyi⟩
+
+/-- `find` after `job_close` put the message back into its channel heap -/
+theorem closeH_find_kept {h : HSt} {c : Chan} {j' : OJob} {m : Msg} (hm : h.find m.id = some m) (i : Nat) :
+    ((mkSt h c ((h.q c).insert { dt := j'.job.retry, id := j'.id }) h.done).update m).find i = h.find i := by
+  rw [find_update _ m m (by rw [mkSt_find]; exact hm) i, mkSt_find]
+  by_cases hi : i = m.id
+  · rw [if_pos hi, hi]; exact hm.symm
+  · rw [if_neg hi]
+
+theorem owed_settle {i : Nat} {c : Chan} {r : Int} {s : PSt} (hw : WFp s) (hup : s.up = true) (ho : OwedP i c r s)
+    (c' : Chan) {j j' : OJob} (hj : j ∈ s.jobs c') (hid : j'.id = j.id) (hjob : j'.job = j.job)
+    (hdef : j.deferred ≤ j'.deferred) : OwedP i c r (settle s c' j') := by
+  unfold settle
+  by_cases hdone : (!j'.scanning && j'.inflight.isEmpty) = true
+  · -- job_close
+    rw [if_pos hdone]
+    obtain ⟨m, hm, hrec, _⟩ := hw.jobFile c' j hj
+    have hmid : m.id = j.id := (find_some hm).2
+    have hcl : closeSt s c' j' = (s.setJobs c' (delJob (s.jobs c') j.id)).setH (closeH s.h c' j' m) := by
+      unfold closeSt; rw [hid, hm]
+    rw [hcl]
+    rcases ho with hclk | ⟨h1, h2, h3, h4⟩
+    · left
+      rw [setH_h]
+      rcases closeH_cases s.h c' j' m with ⟨_, hH⟩ | ⟨_, d', _, hH⟩ <;> rw [hH, update_clock, mkSt_clock] <;> exact hclk
+    · right
+      rcases closeH_cases s.h c' j' m with ⟨hd, hH⟩ | ⟨hd, d', _, hH⟩
+      · -- recipients left: back into the heap at retry
+        have hfind := fun i => closeH_find_kept (h := s.h) (c := c') (j' := j') (m := m) (by rw [hmid]; exact hm) i
+        by_cases hc : c = c'
+        · subst hc
+          refine ⟨?_, ?_, ?_, ?_⟩
+          · intro e he hei
+            rw [setH_h, hH, update_q, mkSt_q_same] at he
+            rcases (mem_insert _ _ _ (hw.wf.heap c)).mp he with hee | hee
+            · subst hee
+              have := h2 j hj (by rw [← hid]; exact hei)
+              show r ≤ j'.job.retry
+              rw [hjob]; exact this.1
+            · exact h1 e hee hei
+          · intro x hx hxi
+            rw [setH_jobs, setJobs_same] at hx
+            exact h2 x (mem_delJob.mp hx).1 hxi
+          · intro hdown; rw [setH_up, setJobs_up, hup] at hdown; cases hdown
+          · intro _ m1 hm1 hr1
+            rw [setH_h, hH, hfind] at hm1
+            rw [setH_h, hH, update_q, mkSt_q_same, setH_jobs, setJobs_same]
+            by_cases hij : i = j.id
+            · left
+              refine (ids_insert _ _ (hw.wf.heap c)).mem_iff.mpr (List.mem_cons.mpr (Or.inl ?_))
+              show i = j'.id
+              rw [hid]; exact hij
+            · rcases h4 hup m1 hm1 hr1 with hq | ⟨x, hx, hxi⟩
+              · left; exact (ids_insert _ _ (hw.wf.heap c)).mem_iff.mpr (List.mem_cons_of_mem _ hq)
+              · right; exact ⟨x, mem_delJob.mpr ⟨hx, by rw [hxi]; exact hij⟩, hxi⟩
+        · have hc' : c ≠ c' := hc
+          refine ⟨?_, ?_, ?_, ?_⟩
+          · rw [setH_h, hH, update_q, mkSt_q_other _ _ _ _ _ hc']; exact h1
+          · rw [setH_jobs, setJobs_other _ _ _ _ hc']; exact h2
+          · intro hdown; rw [setH_up, setJobs_up, hup] at hdown; cases hdown
+          · intro _ m1 hm1 hr1
+            rw [setH_h, hH, hfind] at hm1
+            rw [setH_h, hH, update_q, mkSt_q_other _ _ _ _ _ hc', setH_jobs, setJobs_other _ _ _ _ hc']
+            exact h4 hup m1 hm1 hr1
+      · -- every recipient done: the channel file is removed
+        have hfm : (mkSt s.h c' (s.h.q c') d').find (m.setRecs c' none).id = some m := by
+          rw [mkSt_find, setRecs_id, hmid]; exact hm
+        by_cases hc : c = c'
+        · subst hc
+          refine ⟨?_, ?_, ?_, ?_⟩
+          · rw [setH_h, hH, update_q, mkSt_q_same]; exact h1
+          · intro x hx hxi
+            rw [setH_jobs, setJobs_same] at hx
+            exact h2 x (mem_delJob.mp hx).1 hxi
+          · intro hdown; rw [setH_up, setJobs_up, hup] at hdown; cases hdown
+          · intro _ m1 hm1 hr1
+            rw [setH_h, hH, find_update _ _ m hfm, mkSt_find, setRecs_id] at hm1
+            rw [setH_h, hH, update_q, mkSt_q_same, setH_jobs, setJobs_same]
+            by_cases hi : i = m.id
+            · rw [if_pos hi] at hm1; cases hm1
+              rw [setRecs_same] at hr1; cases hr1
+            · rw [if_neg hi] at hm1
+              rcases h4 hup m1 hm1 hr1 with hq | ⟨x, hx, hxi⟩
+              · exact Or.inl hq
+              · right; exact ⟨x, mem_delJob.mpr ⟨hx, by rw [hxi, ← hmid]; exact hi⟩, hxi⟩
+        · have hc' : c ≠ c' := hc
+          refine ⟨?_, ?_, ?_, ?_⟩
+          · rw [setH_h, hH, update_q, mkSt_q_other _ _ _ _ _ hc']; exact h1
+          · rw [setH_jobs, setJobs_other _ _ _ _ hc']; exact h2
+          · intro hdown; rw [setH_up, setJobs_up, hup] at hdown; cases hdown
+          · intro _ m1 hm1 hr1
+            rw [setH_h, hH, find_update _ _ m hfm, mkSt_find, setRecs_id] at hm1
+            rw [setH_h, hH, update_q, mkSt_q_other _ _ _ _ _ hc', setH_jobs, setJobs_other _ _ _ _ hc']
+            by_cases hi : i = m.id
+            · rw [if_pos hi] at hm1; cases hm1
+              rw [setRecs_other _ _ _ _ hc'] at hr1
+              exact h4 hup m (by rw [hi]; rw [hmid]; exact hm) hr1
+            · rw [if_neg hi] at hm1; exact h4 hup m1 hm1 hr1
+  · -- the job stays open
+    rw [if_neg hdone]
+    rcases ho with hclk | ⟨h1, h2, h3, h4⟩
+    · left; rw [setJobs_h]; exact hclk
+    · right
+      by_cases hc : c = c'
+      · subst hc
+        refine ⟨by rw [setJobs_h]; exact h1, ?_, ?_, ?_⟩
+        · intro x hx hxi
+          rw [setJobs_same] at hx
+          rcases mem_updJob hx with hxe | ⟨hxl, _⟩
+          · subst hxe
+            obtain ⟨a, b⟩ := h2 j hj (by rw [← hid]; exact hxi)
+            exact ⟨by rw [hjob]; exact a, by omega⟩
+          · exact h2 x hxl hxi
+        · intro hdown; rw [setJobs_up, hup] at hdown; cases hdown
+        · intro _ m1 hm1 hr1
+          rw [setJobs_h] at hm1
+          rw [setJobs_h, setJobs_same]
+          rcases h4 hup m1 hm1 hr1 with hq | hjx
+          · exact Or.inl hq
+          · exact Or.inr (updJob_has hjx)
+      · have hc' : c ≠ c' := hc
+        refine ⟨by rw [setJobs_h]; exact h1, by rw [setJobs_other _ _ _ _ hc']; exact h2, ?_, ?_⟩
+        · intro hdown; rw [setJobs_up, hup] at hdown; cases hdown
+        · intro _ m1 hm1 hr1
+          rw [setJobs_h] at hm1
+          rw [setJobs_h, setJobs_other _ _ _ _ hc']
+          exact h4 hup m1 hm1 hr1
+
+theorem owed_nextSt {i : Nat} {c : Chan} {r : Int} {s : PSt} (hw : WFp s) (ho : OwedP i c r s) (c' : Chan) :
+    OwedP i c r (nextSt s c') := by
+  rcases nextSt_cases s c' with h | ⟨hup, j, recs, hj, h⟩
+  · rw [h]; exact ho
+  · rw [h]
+    exact owed_settle hw hup ho c' hj (advance_id j recs) (advance_job j recs) (by rw [advance_deferred]; exact Nat.le_refl _)
+
+theorem owed_mark {i : Nat} {c : Chan} {r : Int} {s : PSt} (ho : OwedP i c r s) (c' : Chan) {m : Msg}
+    (hm : s.h.find m.id = some m) (f : List Bool → List Bool) :
+    OwedP i c r (s.setH (s.h.update (m.setRecs c' ((m.recs c').map f)))) := by
+  have hsome : ∀ c2, ((m.setRecs c' ((m.recs c').map f)).recs c2).isSome = (m.recs c2).isSome := by
+    intro c2
+    by_cases hc : c2 = c'
+    · subst hc; rw [setRecs_same]; cases m.recs c2 <;> rfl
+    · rw [setRecs_other _ _ _ _ hc]
+  have hfm : s.h.find (m.setRecs c' ((m.recs c').map f)).id = some m := by rw [setRecs_id]; exact hm
+  have hback : ∀ m1, (s.h.update (m.setRecs c' ((m.recs c').map f))).find i = some m1 → (m1.recs c).isSome = true →
+      ∃ m0, s.h.find i = some m0 ∧ (m0.recs c).isSome = true ∧ m1.mt c = m0.mt c := by
+    intro m1 hm1 hr1
+    rw [find_update _ _ m hfm, setRecs_id] at hm1
+    by_cases hi : i = m.id
+    · rw [if_pos hi] at hm1; cases hm1
+      exact ⟨m, by rw [hi]; exact hm, by rw [← hsome]; exact hr1, by rw [setRecs_mt]⟩
+    · rw [if_neg hi] at hm1; exact ⟨m1, hm1, hr1, rfl⟩
+  rcases ho with hclk | ⟨h1, h2, h3, h4⟩
+  · left; rw [setH_h, update_clock]; exact hclk
+  · right
+    refine ⟨by rw [setH_h, update_q]; exact h1, by rw [setH_jobs]; exact h2, ?_, ?_⟩
+    · intro hdown m1 hm1 hr1
+      rw [setH_h] at hm1
+      obtain ⟨m0, hm0, hr0, hmt⟩ := hback m1 hm1 hr1
+      rw [hmt]; exact h3 hdown m0 hm0 hr0
+    · intro hup' m1 hm1 hr1
+      rw [setH_h] at hm1
+      obtain ⟨m0, hm0, hr0, _⟩ := hback m1 hm1 hr1
+      rw [setH_h, update_q, setH_jobs]; exact h4 hup' m0 hm0 hr0
+
+theorem owed_reportSt {i : Nat} {c : Chan} {r : Int} {s : PSt} (hw : WFp s) (ho : OwedP i c r s)
+    (c' : Chan) (i' pos : Nat) (letter : Byte) : OwedP i c r (reportSt s c' i' pos letter) := by
+  rcases reportSt_cases s c' i' pos letter with h | ⟨hup, j, m, hj, hji, hm, ⟨_, h⟩ | ⟨_, h⟩⟩
+  · rw [h]; exact ho
+  · rw [h]; exact owed_settle hw hup ho c' hj rfl rfl (Nat.le_succ _)
+  · rw [h]
+    have hmid : m.id = i' := (find_some hm).2
+    have hm' : s.h.find m.id = some m := by rw [hmid]; exact hm
+    have hw1 := wfp_mark hw c' hm' (fun r => r.set pos false)
+    have ho1 := owed_mark ho c' hm' (fun r => r.set pos false)
+    exact owed_settle hw1 (by rw [setH_up]; exact hup) ho1 c' (j := j) (by rw [setH_jobs]; exact hj) rfl rfl (Nat.le_refl _)
+
+/-! ### exit and restart -/
+
+/-- what the `pass_finish()` writes for the jobs `l` of channel `c` do to the record of message `i` -/
+def cutMt (c : Chan) (l : List OJob) (i : Nat) (m : Msg) : Msg :=
+  l.foldl (fun m j => if (j.scanning && decide (0 < j.deferred)) = true ∧ i = j.id then m.setMt c j.job.retry else m) m
+
+theorem cutWrite_find (c : Chan) (h : HSt) (j : OJob) (i : Nat) :
+    (cutWrite c h j).find i =
+      (h.find i).map (fun m => if (j.scanning && decide (0 < j.deferred)) = true ∧ i = j.id then m.setMt c j.job.retry else m) := by
+  unfold cutWrite
+  by_cases hq : (j.scanning && decide (0 < j.deferred)) = true
+  · rw [if_pos hq, finWrite1_find]
+    cases h.find i with
+    | none => rfl
+    | some m =>
+      simp only [Option.map_some]
+      by_cases hi : i = j.id
+      · rw [if_pos hi, if_pos ⟨hq, hi⟩]
+      · rw [if_neg hi, if_neg (fun h => hi h.2)]
+  · rw [if_neg hq]
+    cases h.find i with
+    | none => rfl
+    | some m => simp only [Option.map_some]; rw [if_neg (fun h => hq h.1)]
+
+theorem foldl_cutWrite_find (c : Chan) : ∀ (l : List OJob) (h : HSt) (i : Nat),
+    (l.foldl (cutWrite c) h).find i = (h.find i).map (cutMt c l i) := by
+  intro l
+  induction l with
+  | nil => intro h i; show h.find i = (h.find i).map (fun m => m); cases h.find i <;> rfl
+  | cons x r ih =>
+    intro h i
+    show (r.foldl (cutWrite c) (cutWrite c h x)).find i = _
+    rw [ih, cutWrite_find]
+    cases h.find i <;> rfl
+
+theorem cutWrite_frame (c : Chan) (h : HSt) (j : OJob) :
+    (cutWrite c h j).q0 = h.q0 ∧ (cutWrite c h j).q1 = h.q1 ∧ (cutWrite c h j).clock = h.clock := by
+  unfold cutWrite; split
+  · obtain ⟨a, b, _, d, _⟩ := finWrite1_frame c h { dt := j.job.retry, id := j.id }; exact ⟨a, b, d⟩
+  · exact ⟨rfl, rfl, rfl⟩
+
+theorem foldl_cutWrite_frame (c : Chan) : ∀ (l : List OJob) (h : HSt),
+    (l.foldl (cutWrite c) h).q0 = h.q0 ∧ (l.foldl (cutWrite c) h).q1 = h.q1 ∧ (l.foldl (cutWrite c) h).clock = h.clock := by
+  intro l
+  induction l with
+  | nil => intro h; exact ⟨rfl, rfl, rfl⟩
+  | cons x r ih =>
+    intro h
+    obtain ⟨a1, a2, a3⟩ := ih (cutWrite c h x)
+    obtain ⟨b1, b2, b3⟩ := cutWrite_frame c h x
+    exact ⟨a1.trans b1, a2.trans b2, a3.trans b3⟩
+
+theorem cutMt_spec (c : Chan) (i : Nat) : ∀ (l : List OJob) (m : Msg),
+    (∀ c', (cutMt c l i m).recs c' = m.recs c') ∧ (∀ c', c' ≠ c → (cutMt c l i m).mt c' = m.mt c') ∧
+    ((cutMt c l i m).mt c = m.mt c ∨ ∃ j ∈ l, j.id = i ∧ (cutMt c l i m).mt c = j.job.retry) ∧
+    ((∃ j ∈ l, j.id = i ∧ j.scanning = true ∧ 0 < j.deferred) → ∃ j ∈ l, j.id = i ∧ (cutMt c l i m).mt c = j.job.retry) := by
+  intro l
+  induction l with
+  | nil =>
+    intro m
+    exact ⟨fun _ => rfl, fun _ _ => rfl, Or.inl rfl, fun ⟨j, hj, _⟩ => by cases hj⟩
+  | cons x r ih =>
+    intro m
+    by_cases hq : (x.scanning && decide (0 < x.deferred)) = true ∧ i = x.id
+    · have hstep : cutMt c (x :: r) i m = cutMt c r i (m.setMt c x.job.retry) := by
+        unfold cutMt; rw [List.foldl_cons]; simp only [if_pos hq]
+      rw [hstep]
+      obtain ⟨p1, p2, p3, _⟩ := ih (m.setMt c x.job.retry)
+      have hfin : ∃ j ∈ x :: r, j.id = i ∧ (cutMt c r i (m.setMt c x.job.retry)).mt c = j.job.retry := by
+        rcases p3 with h | ⟨j, hj, hji, hjr⟩
+        · exact ⟨x, List.mem_cons_self, hq.2.symm, by rw [h, setMt_same]⟩
+        · exact ⟨j, List.mem_cons_of_mem _ hj, hji, hjr⟩
+      refine ⟨fun c' => by rw [p1, setMt_recs], fun c' hc => by rw [p2 c' hc, setMt_other _ _ _ _ hc], Or.inr hfin, fun _ => hfin⟩
+    · have hstep : cutMt c (x :: r) i m = cutMt c r i m := by
+        unfold cutMt; rw [List.foldl_cons]; simp only [if_neg hq]
+      rw [hstep]
+      obtain ⟨p1, p2, p3, p4⟩ := ih m
+      refine ⟨p1, p2, ?_, ?_⟩
+      · rcases p3 with h | ⟨j, hj, hji, hjr⟩
+        · exact Or.inl h
+        · exact Or.inr ⟨j, List.mem_cons_of_mem _ hj, hji, hjr⟩
+      · rintro ⟨j, hj, hji, hjs, hjd⟩
+        rcases List.mem_cons.mp hj with hjx | hjr
+        · subst hjx
+          exfalso; apply hq
+          exact ⟨by simp [hjs, hjd], hji.symm⟩
+        · obtain ⟨j', hj', hji', hjr'⟩ := p4 ⟨j, hjr, hji, hjs, hjd⟩
+          exact ⟨j', List.mem_cons_of_mem _ hj', hji', hjr'⟩
+
+theorem cut_mt_ge (c : Chan) (l : List OJob) (i : Nat) (m : Msg) (r : Int)
+    (hU : ∀ j ∈ l, j.id = i → r ≤ j.job.retry ∧ 0 < j.deferred) (hlive : ∀ j ∈ l, j.scanning = true)
+    (hbase : r ≤ m.mt c ∨ ∃ j ∈ l, j.id = i) : r ≤ (cutMt c l i m).mt c := by
+  obtain ⟨_, _, p3, p4⟩ := cutMt_spec c i l m
+  rcases hbase with h | ⟨j, hj, hji⟩
+  · rcases p3 with h3 | ⟨j, hj, hji, hjr⟩
+    · rw [h3]; exact h
+    · rw [hjr]; exact (hU j hj hji).1
+  · obtain ⟨j', hj', hji', hjr'⟩ := p4 ⟨j, hj, hji, hlive j hj, (hU j hj hji).2⟩
+    rw [hjr']; exact (hU j' hj' hji').1
+
+theorem inflight_of_nothing {s : PSt} (h : nothingInFlight s = true) (c : Chan) : ∀ j ∈ s.jobs c, j.inflight = [] := by
+  unfold nothingInFlight at h
+  simp only [Bool.and_eq_true, List.all_eq_true, List.isEmpty_iff] at h
+  intro j hj
+  cases c
+  · exact h.1 j hj
+  · exact h.2 j hj
+
+theorem lit_jobs (h : HSt) (e u : Bool) (c : Chan) : ({ h := h, j0 := [], j1 := [], exitasap := e, up := u } : PSt).jobs c = [] := by
+  cases c <;> rfl
+
+/-- the exit of the daemon keeps the obligation: with the repaired exit always; with the exit as it was, provided no job
+of the message is open on that channel when the daemon exits (its pass was not cut short by TERM) -/
+theorem owed_pfinSt {i : Nat} {c : Chan} {r : Int} {s : PSt} (hw : WFp s) (ho : OwedP i c r s) (persist : Bool)
+    (hcut : persist = true ∨ s.job? c i = none) : OwedP i c r (pfinSt persist s) := by
+  rcases pfinSt_cases persist s with h | ⟨hup, _, hnf, h⟩
+  · rw [h]; exact ho
+  · rw [h]
+    obtain ⟨hq0, hq1, _, hclk, _, _, hfind⟩ := finSt_spec hw.wf
+    rcases ho with hc | ⟨h1, h2, _, h4⟩
+    · left
+      show r ≤ (if persist then s.j1.foldl (cutWrite .rem) (s.j0.foldl (cutWrite .loc) (finSt s.h)) else finSt s.h).clock
+      cases persist with
+      | false => simp only [Bool.false_eq_true, if_false]; rw [hclk]; exact hc
+      | true =>
+        simp only [if_true]
+        rw [(foldl_cutWrite_frame .rem _ _).2.2, (foldl_cutWrite_frame .loc _ _).2.2, hclk]; exact hc
+    · right
+      have hqe : ∀ c', ((if persist then s.j1.foldl (cutWrite .rem) (s.j0.foldl (cutWrite .loc) (finSt s.h)) else finSt s.h).q c').toList = [] := by
+        intro c'
+        cases persist with
+        | false =>
+          simp only [Bool.false_eq_true, if_false]
+          cases c'
+          · rw [show (finSt s.h).q .loc = (finSt s.h).q0 from rfl, hq0]
+          · rw [show (finSt s.h).q .rem = (finSt s.h).q1 from rfl, hq1]
+        | true =>
+          simp only [if_true]
+          obtain ⟨a0, a1, _⟩ := foldl_cutWrite_frame .rem s.j1 (s.j0.foldl (cutWrite .loc) (finSt s.h))
+          obtain ⟨b0, b1, _⟩ := foldl_cutWrite_frame .loc s.j0 (finSt s.h)
+          cases c'
+          · show (List.foldl (cutWrite .rem) _ s.j1).q0.toList = []; rw [a0, b0, hq0]
+          · show (List.foldl (cutWrite .rem) _ s.j1).q1.toList = []; rw [a1, b1, hq1]
+      refine ⟨?_, ?_, ?_, ?_⟩
+      · intro e he; rw [hqe c] at he; cases he
+      · intro j hj; rw [lit_jobs] at hj; cases hj
+      · intro _ m' hm' hr'
+        obtain ⟨g, hg, hgp⟩ := hfind i
+        -- the record before the exit
+        cases hm : s.h.find i with
+        | none =>
+          exfalso
+          cases persist with
+          | false => simp only [Bool.false_eq_true, if_false] at hm'; rw [hg, hm] at hm'; cases hm'
+          | true =>
+            simp only [if_true] at hm'
+            rw [foldl_cutWrite_find, foldl_cutWrite_find, hg, hm] at hm'; cases hm'
+        | some m =>
+          obtain ⟨_, _, g3, g4⟩ := hgp m
+          have hbase : (m.recs c).isSome = true → r ≤ (g m).mt c ∨ ∃ j ∈ s.jobs c, j.id = i := by
+            intro hfile
+            rcases h4 hup m hm hfile with hq | hj
+            · left
+              obtain ⟨e, he, hei⟩ := List.mem_map.mp hq
+              rw [(g4 c).1 e he hei]; exact h1 e he hei
+            · exact Or.inr hj
+          cases persist with
+          | false =>
+            simp only [Bool.false_eq_true, if_false] at hm' hr'
+            rw [hg, hm] at hm'; cases hm'
+            rw [g3 c] at hr'
+            rcases hbase hr' with hb | ⟨j, hj, hji⟩
+            · exact hb
+            · exfalso
+              rcases hcut with hp | hnone
+              · cases hp
+              · have := List.find?_eq_none.mp hnone j hj
+                simp [hji] at this
+          | true =>
+            simp only [if_true] at hm' hr'
+            rw [foldl_cutWrite_find, foldl_cutWrite_find, hg, hm] at hm'
+            simp only [Option.map_some] at hm'
+            cases hm'
+            obtain ⟨a1, a2, _, _⟩ := cutMt_spec .rem i s.j1 (cutMt .loc s.j0 i (g m))
+            obtain ⟨b1, b2, _, _⟩ := cutMt_spec .loc i s.j0 (g m)
+            rw [a1, b1, g3 c] at hr'
+            have hlive : ∀ c', ∀ j ∈ s.jobs c', j.scanning = true := by
+              intro c' j hj
+              rcases hw.jobLive c' j hj with hs | hs
+              · exact hs
+              · exact absurd (inflight_of_nothing hnf c' j hj) hs
+            cases c with
+            | loc =>
+              rw [a2 .loc (by decide)]
+              exact cut_mt_ge .loc s.j0 i (g m) r h2 (hlive .loc) (hbase hr')
+            | rem =>
+              refine cut_mt_ge .rem s.j1 i _ r h2 (hlive .rem) ?_
+              rw [b2 .rem (by decide)]; exact hbase hr'
+      · intro hu; cases hu
+
+theorem owed_ploadSt {i : Nat} {c : Chan} {r : Int} {s : PSt} (hw : WFp s) (ho : OwedP i c r s) : OwedP i c r (ploadSt s) := by
+  unfold ploadSt
+  by_cases hup : s.up = true
+  · rw [if_pos hup]; exact ho
+  · rw [if_neg hup]
+    have hdown : s.up = false := by simpa using hup
+    rcases ho with hc | ⟨_, _, h3, _⟩
+    · exact Or.inl hc
+    · right
+      refine ⟨?_, ?_, ?_, ?_⟩
+      · intro e he hei
+        obtain ⟨m, hm, hr, hem⟩ := (mem_loadSt_q s.h c e).mp he
+        have hf := find_of_mem hw.wf.nodupMsgs hm
+        have hmi : m.id = i := by rw [← hei, hem]
+        rw [hem]
+        exact h3 hdown m (by rw [← hmi]; exact hf) hr
+      · intro j hj; rw [lit_jobs] at hj; cases hj
+      · intro hu; cases hu
+      · intro _ m hm hr
+        left
+        have hm' : s.h.find i = some m := hm
+        refine List.mem_map.mpr ⟨{ dt := m.mt c, id := m.id }, (mem_loadSt_q s.h c _).mpr ⟨m, (find_some hm').1, hr, rfl⟩, (find_some hm').2⟩
+
+/-! ### histories -/
+
+theorem owed_pstep {i : Nat} {c : Chan} {r : Int} {s : PSt} (hw : WFp s) (ho : OwedP i c r s) (persist : Bool) (x : PStep)
+    (hq : x.quiet = true) (hcut : persist = true ∨ NoCutAt i c s x) :
+    OwedP i c r (pstep persist s x) := by
+  cases x with
+  | mk => cases hq
+  | alrm => cases hq
+  | tick d => exact owed_tick ho d
+  | term => exact owed_term ho
+  | fin => exact owed_pfinSt hw ho persist hcut
+  | load => exact owed_ploadSt hw ho
+  | «open» c' => exact owed_openSt hw ho c'
+  | next c' => exact owed_nextSt hw ho c'
+  | report c' i' pos letter => exact owed_reportSt hw ho c' i' pos letter
+
+theorem owed_prun {i : Nat} {c : Chan} {r : Int} (persist : Bool) : ∀ (l : List PStep) (s : PSt), WFp s → OwedP i c r s →
+    allQuiet l → (persist = true ∨ NoCut persist i c s l) →
+    WFp (prun persist s l) ∧ OwedP i c r (prun persist s l) := by
+  intro l
+  induction l with
+  | nil => intro s hw ho _ _; exact ⟨hw, ho⟩
+  | cons x rest ih =>
+    intro s hw ho hq hcut
+    have hqx : x.quiet = true := hq x List.mem_cons_self
+    have hcx : persist = true ∨ NoCutAt i c s x := by
+      rcases hcut with h | h
+      · exact Or.inl h
+      · exact Or.inr h.1
+    have hcr : persist = true ∨ NoCut persist i c (pstep persist s x) rest := by
+      rcases hcut with h | h
+      · exact Or.inl h
+      · exact Or.inr h.2
+    exact ih (pstep persist s x) (wfp_pstep hw persist x hqx) (owed_pstep hw ho persist x hqx hcx)
+      (fun y hy => hq y (List.mem_cons_of_mem _ hy)) hcr
+
+theorem wfp_prun (persist : Bool) : ∀ (l : List PStep) (s : PSt), WFp s → allQuiet l → WFp (prun persist s l) := by
+  intro l
+  induction l with
+  | nil => intro s hw _; exact hw
+  | cons x rest ih =>
+    intro s hw hq
+    exact ih (pstep persist s x) (wfp_pstep hw persist x (hq x List.mem_cons_self)) (fun y hy => hq y (List.mem_cons_of_mem _ hy))
+
+/-- the report that leaves a record 'T' -/
+theorem reportSt_stay {s : PSt} {c : Chan} {i pos : Nat} {letter : Byte} {j : OJob} {m : Msg}
+    (hup : s.up = true) (hj : s.job? c i = some j) (hin : j.inflight.contains pos = true) (hm : s.h.find i = some m)
+    (hstay : (report j.job.dying letter (str "report\n")).staysTodo = true) :
+    reportSt s c i pos letter = settle s c { j with inflight := j.inflight.erase pos, deferred := j.deferred + 1 } := by
+  unfold reportSt
+  simp only [hup, Bool.not_true, Bool.false_eq_true, if_false, hj, hin, hm, hstay, if_true]
+
+/-- the obligation is established by a report that leaves the record 'T' (deferral, or a mangled report) -/
+theorem owed_init_report {s : PSt} (hw : WFp s) {c : Chan} {i pos : Nat} {letter : Byte} {j : OJob} {m : Msg}
+    (hup : s.up = true) (hj : s.job? c i = some j) (hin : j.inflight.contains pos = true) (hm : s.h.find i = some m)
+    (hstay : (report j.job.dying letter (str "report\n")).staysTodo = true) :
+    OwedP i c j.job.retry (reportSt s c i pos letter) := by
+  rw [reportSt_stay hup hj hin hm hstay]
+  have hjm := find_job_mem (show (s.jobs c).find? (·.id == i) = some j from hj)
+  have hji : j.id = i := by simpa using hjm.2
+  have hnq := hw.jobNotQ c j hjm.1
+  have hnoent : ∀ e ∈ (s.h.q c).toList, e.id = i → False := by
+    intro e he hei; exact hnq (by rw [hji, ← hei]; exact List.mem_map_of_mem he)
+  right
+  unfold settle
+  by_cases hdone : (!({ j with inflight := j.inflight.erase pos, deferred := j.deferred + 1 } : OJob).scanning &&
+      ({ j with inflight := j.inflight.erase pos, deferred := j.deferred + 1 } : OJob).inflight.isEmpty) = true
+  · rw [if_pos hdone]
+    have hmid : m.id = j.id := by rw [hji]; exact (find_some hm).2
+    have hm' : s.h.find j.id = some m := by rw [hji]; exact hm
+    have hcl : closeSt s c { j with inflight := j.inflight.erase pos, deferred := j.deferred + 1 } =
+        (s.setJobs c (delJob (s.jobs c) j.id)).setH (closeH s.h c { j with inflight := j.inflight.erase pos, deferred := j.deferred + 1 } m) := by
+      unfold closeSt; simp only [hm']
+    rw [hcl]
+    rcases closeH_cases s.h c { j with inflight := j.inflight.erase pos, deferred := j.deferred + 1 } m with ⟨_, hH⟩ | ⟨hd, _⟩
+    · have hfind := fun i' => closeH_find_kept (h := s.h) (c := c)
+        (j' := { j with inflight := j.inflight.erase pos, deferred := j.deferred + 1 }) (m := m) (by rw [hmid]; exact hm') i'
+      refine ⟨?_, ?_, ?_, ?_⟩
+      · intro e he hei
+        rw [setH_h, hH, update_q, mkSt_q_same] at he
+        rcases (mem_insert _ _ _ (hw.wf.heap c)).mp he with hee | hee
+        · subst hee; exact Int.le_refl _
+        · exact absurd (hnoent e hee hei) id
+      · intro x hx hxi
+        rw [setH_jobs, setJobs_same] at hx
+        exact absurd (hxi.trans hji.symm) (mem_delJob.mp hx).2
+      · intro hdown; rw [setH_up, setJobs_up, hup] at hdown; cases hdown
+      · intro _ _ _ _
+        left
+        rw [setH_h, hH, update_q, mkSt_q_same]
+        exact (ids_insert _ _ (hw.wf.heap c)).mem_iff.mpr (List.mem_cons.mpr (Or.inl hji.symm))
+    · exact absurd hd (Nat.succ_ne_zero _)
+  · rw [if_neg hdone]
+    refine ⟨?_, ?_, ?_, ?_⟩
+    · intro e he hei; rw [setJobs_h] at he; exact absurd (hnoent e he hei) id
+    · intro x hx hxi
+      rw [setJobs_same] at hx
+      rcases mem_updJob hx with hxe | ⟨_, hne⟩
+      · subst hxe; exact ⟨Int.le_refl _, Nat.succ_pos _⟩
+      · exact absurd (hxi.trans hji.symm) hne
+    · intro hdown; rw [setJobs_up, hup] at hdown; cases hdown
+    · intro _ _ _ _
+      right
+      rw [setJobs_same]
+      exact updJob_has ⟨j, hjm.1, hji⟩
+
+/-- the message `pass_dochan(c)` starts now -/
+theorem startedP_some {s : PSt} {c : Chan} {pe : Elt} (h : startedP s c = some pe) :
+    s.up = true ∧ ∃ q', passStart s.h.clock true (s.h.q c) = some (pe, q') := by
+  unfold startedP at h
+  by_cases hg : (!s.up || s.exitasap || (s.jobs c).any (·.scanning)) = true
+  · rw [if_pos hg] at h; cases h
+  · rw [if_neg hg] at h
+    refine ⟨?_, ?_⟩
+    · cases hu : s.up with
+      | true => rfl
+      | false => exfalso; apply hg; simp [hu]
+    · cases hp : passStart s.h.clock true (s.h.q c) with
+      | none => rw [hp] at h; cases h
+      | some rr =>
+        obtain ⟨pe', q'⟩ := rr
+        rw [hp] at h
+        simp only [Option.map_some] at h
+        cases h; exact ⟨q', rfl⟩
+
+/-- an obligation that holds when the message is started again: the clock has reached it -/
+theorem owed_started {s : PSt} (hw : WFp s) {i : Nat} {c : Chan} {r : Int} (ho : OwedP i c r s) {pe : Elt}
+    (hst : startedP s c = some pe) (hpe : pe.id = i) : r ≤ s.h.clock := by
+  obtain ⟨_, q', hp⟩ := startedP_some hst
+  obtain ⟨hdue, _, _, _, hmem, _⟩ := start_facts hw.wf hp
+  rcases ho with h | ⟨h1, _, _, _⟩
+  · exact h
+  · have := h1 pe hmem hpe; omega
 
 end Nq.Lemmas.SchedPass
